@@ -31,14 +31,5 @@ CONSTANTS
   Caught = {"InvalidModel", "InvalidChemistry", "InvalidTemperature"}
   ZeroChi = "value"
 VIEW view
-INVARIANT ValidEqualsGaussian
 INVARIANT InvalidNeverFinite
-INVARIANT PartialSkipsOrNaN
-INVARIANT NeverRaises
-INVARIANT WrittenIsPriorOfX
-INVARIANT OnlyFittedWritten
-INVARIANT OrderIsFitOrder
-INVARIANT DeclarationOrder
-INVARIANT FitsInv
-PROPERTY UnfittedFrozen
 CHECK_DEADLOCK FALSE
